@@ -45,3 +45,11 @@ Proof. exact print_parse_idempotent_refuted. Qed.
 Theorem C18_print_parse_idempotent_partial : forall s t,
   tuple_from_string s = Ok t -> d13_class t = false -> tuple_from_string (tuple_string t) = Ok t.
 Proof. exact print_parse_idempotent_partial. Qed.
+
+(* the CLI file format (cmd/relationtuple/parse.go): one relationship per line, // comments and blank lines ignored *)
+Theorem C18_file_roundtrip : forall ts, forallb dom_line ts = true -> parse_file (print_file ts) = Ok ts.
+Proof. exact file_roundtrip. Qed.
+Theorem C18_file_skips_comment : forall row rest, is_comment (trim_ws row) = true -> parse_rows (row :: rest) = parse_rows rest.
+Proof. exact file_skips_comment. Qed.
+Theorem C18_file_total : forall s, parse_file s <> Panic.
+Proof. exact file_total. Qed.
